@@ -5,7 +5,7 @@ ID = 'C05'
 FUNCTIONS = [('devices', 'DAC'), ('devices', 'SAMPLER'), ('typing', 'global_variables.__call__'),
              ('typing', 'electrical_signal.__getitem__'), ('typing', 'electrical_signal.__gt__')]
 BOUNDS = {'quick': 'bits: every 0/1 pattern of 1..3 slots (symbolic); sps in {1,2,3,5,8}; Vout, bias symbolic in (-60,60); sampling instant every k in [0,sps)',
-          'thorough': 'up to 4 slots; sps in {1,2,3,4,5,6,8,9}',
+          'thorough': 'up to 4 slots; sps in {1,...,9,11,16,17,32}',
           'gaussian': 'grid sps in {8,9,16} x T in {sps/2, sps, 2*sps} x m in {1,2,4}: pulse profile evaluated with libm doubles, '
                       'affine dependence on Vout/bias decided symbolically'}
 OUTSIDE = ['sps > 9 for the exact clauses (slot-local code without any sps-dependent branch)',
@@ -178,7 +178,7 @@ def scen_strbits(env, cfg):
 def configs(tier):
     q = tier == 'quick'
     out = []
-    spss = (1, 2, 3, 5, 8) if q else (1, 2, 3, 4, 5, 6, 8, 9)
+    spss = (1, 2, 3, 5, 8) if q else (1, 2, 3, 4, 5, 6, 7, 8, 9, 11, 16, 17, 32)
     for shape in ('nrz', 'rz'):
         for sps in spss:
             for n in ((1, 3) if q else (1, 2, 4)):
